@@ -1,5 +1,5 @@
 From Coq Require Import extraction.Extraction extraction.ExtrOcamlBasic.
-From TU Require Import Base C20_Model C20_Words C20_Bytes C20_Float.
+From TU Require Import Base C20_Model C20_Words C20_Bytes C20_Float C20_Fast.
 (* Third session, topic M.  The corpus files enter as BYTES: the model reads the lines itself (Lines_Model.lossy_lines,
    the crate's lossy reader that Dictionary::create uses since D16) and computes the words of every line from them
    (clean + NFKC + UCD_Model + UAX29_Model); the dictionary file is arbitrary bytes (a line that is not UTF-8 is a
@@ -8,7 +8,13 @@ From TU Require Import Base C20_Model C20_Words C20_Bytes C20_Float.
    get_closest is compared exactly on the implementation's own iteration order.  The oracles the harness still sends
    (lines, words, clusters, normalised queries) are cross-checks inside agree (reader_agree, ucd_agree, uax29_agree,
    query_agree); check additionally demands identical builds (builds_same) and relative frequencies in [0,1]. *)
-Definition run := run_C20f.
-Definition check := check_C20f.
-Definition agree (inp m i : val) : bool := agree_C20f inp m i.
+(* Topic R: what runs is C20_Fast.v — the same functions with the edit distances computed by the binary-number dynamic
+   programme of C12_Fast.v (run_C20f_f = run_C20f, check_C20f_f = check_C20f, agree_C20f_f = agree_C20f for every input:
+   C20_FastProps.v); on inputs with a small dictionary file the old unary model runs next to it and must give the same
+   output. *)
+Definition small (v : val) : bool := Nat.ltb (length (in_dfile v)) 400.
+Definition run := run_C20f_f.
+Definition check := check_C20f_f.
+Definition agree (inp m i : val) : bool :=
+  agree_C20f_f inp m i && (if small inp then val_eqb (run_C20f inp) m else true).
 Extraction "model.ml" run check agree.
